@@ -582,7 +582,7 @@ func (c *SpecCtx) selector(x *ast.SelectorExpr, sn *SpecNode) (Value, types.Type
 	_ = path
 	ft := st.Field(idx).Type()
 	if isPtr {
-		fp := &FieldPtr{Base: v, ST: st, Idx: idx}
+		fp := &FieldPtr{Base: v, ST: st, Idx: idx, NT: derefType(t)}
 		return e.readLoc(c.st, e.resolve(fp, ft)), ft
 	}
 	return v.(*StructV).F[idx], ft
